@@ -227,7 +227,7 @@ Proof.
   destruct (seen j).
   - destruct H as (H1 & H2 & H3 & H4 & H5 & H6 & H7 & H8).
     rewrite H1, H2, !N.eqb_refl. cbn [andb orb].
-    assert (E1 : (gmin j <=? smoothed r + 56) = true) by lia.
+    assert (E1 : (gmin j <=? smoothed r + 49) = true) by lia.
     assert (E2 : (smoothed r <=? gmax j) = true) by lia.
     rewrite E1, E2. reflexivity.
   - destruct H as (H1 & H2 & H3 & _). rewrite H1, H2, H3, !N.eqb_refl. reflexivity.
